@@ -56,7 +56,7 @@ func (c c09cand) z() int64 {
 
 // one step of a schedule
 type c09op struct {
-	Op string `json:"op"` // M release the caller, R release dial goroutine of candidate Z, C cancel the outer context, P pairing: wait for the acceptor's first connection and release a dial that is (Arg=1) / is not (Arg=0) that connection
+	Op string `json:"op"` // W wait Arg ms with everything held, M release the caller, R release dial goroutine of candidate Z, C cancel the outer context, P pairing: wait for the acceptor's first connection and release a dial that is (Arg=1) / is not (Arg=0) that connection
 	Z  int64  `json:"z"`
 	A  int    `json:"arg,omitempty"`
 }
@@ -644,6 +644,31 @@ func (e *c09env) run(cs c09case) (res c09result) {
 			}
 			emitArrivals()
 			releaseDial(c.str)
+		case "W":
+			// wall-clock wait with everything else held: handshakes that complete LATE.
+			// Nothing the model knows can move the caller during the wait.
+			time.Sleep(time.Duration(op.A) * time.Millisecond)
+			if mainAt == "select" && ch[cur] == "" && !allDone(cur) && !cancelled {
+				moved := false
+				select {
+				case r := <-resCh:
+					ret = &r
+					mainAt = "returned"
+					moved = true
+				default:
+				}
+				ctl.mu.Lock()
+				n := ctl.mainArr
+				ctl.mu.Unlock()
+				if n > mainSeen {
+					mainSeen = n
+					mainAt = "hook"
+					moved = true
+				}
+				if moved {
+					diverge(fmt.Sprintf("the caller left its select after %d ms although no connection had been handed over, not all dials were over and the context was live", op.A))
+				}
+			}
 		case "C":
 			if !cancelled {
 				ocancel()
@@ -1192,6 +1217,23 @@ func c09generate(r *hx.Rand, tier string) []c09case {
 		cs := c09reach(r, k, false)
 		out = append(out, c09case{Kind: "slow-spawn", Cands: cs, SpawnMs: 30,
 			Prog: append([]c09op{{Op: "M"}}, c09releases(cs, c09perm(r, k))...)})
+	}
+	// F10: a handshake that completes late (the others held meanwhile): a direct candidate
+	// answering slowly while relay candidates exist, or a slow one among several direct ones
+	waits := []int{1200, 2600}
+	if tier == "thorough" {
+		waits = []int{300, 1200, 2600, 5500, 11000}
+	}
+	for _, w := range waits {
+		dc := c09reach(r, 1, false)
+		tc := c09reach(r, 1, true)
+		out = append(out, c09case{Kind: "late:direct-slow-relay-present", Cands: append(append([]c09cand{}, tc...), dc...),
+			Prog: []c09op{{Op: "M"}, {Op: "W", A: w}, {Op: "R", Z: dc[0].z()}}})
+		if tier == "thorough" {
+			cs := c09reach(r, 2, false)
+			out = append(out, c09case{Kind: "late:one-of-two-direct", Cands: cs,
+				Prog: []c09op{{Op: "M"}, {Op: "W", A: w}, {Op: "R", Z: cs[1].z()}, {Op: "R", Z: cs[0].z()}}})
+		}
 	}
 	// F9: both sides - which connection does the acceptor commit to, which one the dialer
 	for n := 0; n < 12*mul; n++ {
